@@ -1464,7 +1464,8 @@ class Engine:
                     ds = [d for d, n_ in tab.items() if n_ == last]
                     if ds:
                         return [(st, EnumV(parent, last, ds[0], {i: a for i, a in enumerate(cargs)}))]
-                st.trace.append(Event("call", f.path, f.path, tuple(snapshot(a) for a in cargs), fr.bi, "?", len(st.frames), fr.body.npath if fr.body else "?"))
+                st.trace.append(Event("call", f.path, f.path, tuple(snapshot(a) for a in cargs), fr.bi, "?", len(st.frames), fr.body.npath if fr.body else "?",
+                                      extra={"gargs": self.concrete_gargs(st, {"gargs": [str(g) for g in (f.gargs or ())]}), "via_pointer": True}))
                 return [(st, st.fresh(("ret", f.path)))]
             else:
                 nf_ = self.push_frame(st, body, list(cargs), Loc(tmp), -1)
